@@ -167,6 +167,9 @@ class HistSim {
   void opCmp(const Op& op, size_t ix);
   void opFill(const Op& op, size_t ix);
   void opShared(const Op& op, size_t ix);
+  void opPeek(const Op& op, size_t ix);
+  void opEach(const Op& op, size_t ix);
+  void opLongSet(const Op& op, size_t ix);
   void opStrict(const Op& op, size_t ix);
 
   // real-side helpers
